@@ -29,6 +29,7 @@
 #include "oomd/Log.h"
 #include "oomd/config/JsonConfigParser.h"
 #include "oomd/include/Assert.h"
+#include "oomd/include/Verif.h"
 #include "oomd/util/Fs.h"
 #include "oomd/util/Util.h"
 
@@ -146,6 +147,7 @@ int FsDropInService::deregisterDropInWatcherFromEventLoop() {
   ::close(inotifyfd_);
   inotifyfd_ = -1;
   inotifywd_ = -1;
+  OOMD_VERIF_POINT("dropin.dereg", ret, 0);
 
   return ret;
 }
@@ -194,8 +196,10 @@ int FsDropInService::prepDropInWatcher(const std::string& dir) {
    */
   std::lock_guard<std::mutex> lock(event_loop_mutex_);
   if (prepDropInWatcherEventLoop(dir)) {
+    OOMD_VERIF_POINT("dropin.reg", 1, 0);
     return 1;
   }
+  OOMD_VERIF_POINT("dropin.reg", 0, 0);
 
   auto de = Fs::readDir(dir, Fs::DE_FILE);
   // TODO(dschatzberg): Report error
@@ -205,6 +209,7 @@ int FsDropInService::prepDropInWatcher(const std::string& dir) {
       processDropInAdd(config);
     }
   }
+  OOMD_VERIF_POINT("dropin.scan.done", 0, 0);
 
   return 0;
 }
@@ -273,6 +278,8 @@ int FsDropInService::processDropInWatcher(int fd) {
     for (char* ptr = buf.data(); ptr < (buf.data() + len);
          ptr += sizeof(struct inotify_event) + event->len) {
       event = reinterpret_cast<const struct inotify_event*>(ptr);
+      OOMD_VERIF_POINT(
+          "dropin.event", event->mask, (long)(event->len ? event->name : ""));
 
       if (event->mask & (IN_MOVED_TO | IN_MODIFY)) {
         // Remove and re-add drop in if a file has been added to the
@@ -311,7 +318,9 @@ int FsDropInService::processEventLoop() {
 
   // This will only contend when drop in dir is recreated and some event fires,
   // which is very rare. See comment above in prepDropInWatcher().
+  OOMD_VERIF_POINT("dropin.loop.wake", n, 0);
   std::lock_guard<std::mutex> lock(event_loop_mutex_);
+  OOMD_VERIF_POINT("dropin.loop.locked", n, 0);
 
   for (int i = 0; i < n; ++i) {
     int fd = events[i].data.fd;
